@@ -83,7 +83,18 @@ pub fn lifecycle(rng: &mut Prng, spec: SpecId, n_eoa: usize, base: usize, pre_st
         evmasm::compile(&[Stmt::Mix(sload(imm(0))), Stmt::Sstore(imm(0), add(sload(imm(0)), imm(1))), Stmt::Mix(sload(imm(1)))])
     };
     let ctor = vec![Stmt::Sstore(imm(0), imm(9)), Stmt::Sstore(imm(1), Expr::Timestamp)];
-    let init = evmasm::compile_init(&ctor, &child_runtime);
+    // a fifth of the moded variants: the factory's init code self-destructs in its constructor, so every
+    // factory call creates AND destroys the child address in one transaction - also when that address
+    // already exists (pre-state child) or was destroyed earlier in the block (Destroyed -> DestroyedAgain)
+    let ctor_destroys = moded && rng.chance(1, 5);
+    let init = if ctor_destroys {
+        let mut a = evmasm::Asm::default();
+        a.stmt(&Stmt::Sstore(imm(0), imm(3)));
+        a.stmt(&Stmt::SelfDestruct(addr_expr(heir)));
+        a.code
+    } else {
+        evmasm::compile_init(&ctor, &child_runtime)
+    };
     let salt = rng.below(2);
     let child = f.create2_from_code(B256::from(U256::from(salt)), &init);
     let child_create = f.create(1); // CREATE address for the factory's first plain CREATE
@@ -154,7 +165,7 @@ pub fn lifecycle(rng: &mut Prng, spec: SpecId, n_eoa: usize, base: usize, pre_st
         }
         pool.push(Intent::call(s(rng), made, &[2, 0], "child-write-destroy"));
     }
-    if moded && rng.chance(1, 2) {
+    if moded && (ctor_destroys || rng.chance(1, 2)) {
         // the child may already exist (with storage in the database) at the address the factory creates
         pre_state.push(AccountSpec {
             address: made,
@@ -578,7 +589,16 @@ pub fn reserve_template(rng: &mut Prng, n_eoa: usize, base: usize, pre_state: &m
     for k in 0..own {
         let at = rng.below(intents.len() as u64 + 1) as usize;
         let via_callback = k + 1 < own && rng.chance(1, 2);
-        let intent = if via_callback {
+        let self_call = k + 1 < own && !via_callback && rng.chance(1, 2);
+        let intent = if self_call {
+            // the account calls ITSELF with value v (no balance moves at the top level) and its delegated
+            // code pays out v, v+1 or v-1: the first inner debit looks exactly like the root transfer
+            let pay = *rng.pick(&[own_value, own_value, own_value + 1, own_value.saturating_sub(1)]);
+            let mut i = Intent::call(delegated, a, &[0, pay, pay], "own-tx-of-delegated");
+            i.value = U256::from(own_value);
+            i.gas_limit = gas_limit;
+            i
+        } else if via_callback {
             // own transaction with value v to the call-back contract, which re-enters the account's
             // delegated code with the amount v (or v +- 1)
             let back = *rng.pick(&[own_value, own_value, own_value + 1, own_value - 1, slack, 0]);
